@@ -30,19 +30,20 @@ try:
     meta["suite_with_change"] = (s.stdout.strip().splitlines() or ['?'])[-1]
     r2 = sh(f"timeout 120 /venv/bin/python {demo}" if 'test_' not in os.path.basename(demo) else f"timeout 120 /venv/bin/python -m pytest -q -p no:cacheprovider {demo}", env=env, cwd=wt)
     meta["demo_with_change_exit"] = r2.returncode
-finally:
+except BaseException:
     sh(f"git -C /repo worktree remove --force {wt}")
     shutil.rmtree(wt, ignore_errors=True)
+    raise
 confirmed = meta["patch_applies"] and meta["demo_without_change_exit"] == 0 and meta["demo_with_change_exit"] != 0 and 'passed' in meta["suite_with_change"] and 'failed' not in meta["suite_with_change"]
 meta["confirmed"] = confirmed
 print(json.dumps(meta))
 meta["checks"] = {}
 if confirmed:
-    assert sh("git -C /repo status --porcelain").stdout.strip() == "", "/repo not clean"
+    # the checks read the changed sources from the scratch worktree (HAIWAY_SRC), equivalent to
+    # `git -C /repo apply` + undo but safe while background runs are reading /repo
     try:
-        assert sh(f"git -C /repo apply {patch}").returncode == 0
         for pid in props:
-            p = sh(f"VERIF_SCALE={scale} VERIF_DET_SEEDS=1 timeout 1500 /verif/bin/check {pid} --tier quick")
+            p = sh(f"HAIWAY_SRC={wt}/src VERIF_SCALE={scale} VERIF_DET_SEEDS=1 timeout 1500 /verif/bin/check {pid} --tier quick")
             sigs = [l.split('::')[0].replace('violation rule/signature:', '').strip() for l in p.stdout.splitlines() if l.startswith('violation rule/signature')]
             verdict = 'CAUGHT' if p.returncode == 1 else ('MISSED' if p.returncode == 0 else 'HARNESS')
             meta["checks"][pid] = {"verdict": verdict, "signatures": sigs[:6], "cmd": f"VERIF_SCALE={scale} /verif/bin/check {pid} --tier quick", "exit": p.returncode}
@@ -50,8 +51,9 @@ if confirmed:
             if verdict == 'HARNESS':
                 print(p.stdout[-1500:])
     finally:
-        sh("git -C /repo checkout -- .")
-        assert sh("git -C /repo status --porcelain").stdout.strip() == ""
+        pass
+sh(f"git -C /repo worktree remove --force {wt}")
+shutil.rmtree(wt, ignore_errors=True)
 if keep and confirmed:
     dst = f"/verif/seeded/{sid}"
     os.makedirs(dst, exist_ok=True)
